@@ -1089,6 +1089,9 @@ def _o_vs_uncached(w):
 
 
 # =============================================================================== curve identity (key-soundness of every curve-keyed cache and of the dispatch)
+_INF = ("infinity",)
+
+
 def _nadd(P, Q, p, a):
     """affine chord-and-tangent, None = infinity: the harness's own arithmetic, independent of btclib."""
     if P is None:
@@ -1198,17 +1201,17 @@ def _o_curve_identity(w):
                     p, a, G, n = c[0], c[1], (c[3], c[4]), c[5]
                     def ref(k, P=G):
                         r = _nmult(k % n, P, p, a)
-                        return (1, 0) if r is None else r
+                        return _INF if r is None else r
                     k = m % 97 + 2
                     Pk = ref(k)
                     checks = [("mult(m)", lambda: mult(m, None, ec), ref(m)),
                               ("mult(m, P)", lambda: mult(m, Pk, ec), ref(m, Pk)),
                               ("PreparedPoint.mult", lambda: PreparedPoint(Pk, ec).mult(m), ref(m, Pk)),
                               ("double_mult_var", lambda: double_mult_var(m, G, k, Pk, ec),
-                               (lambda r: (1, 0) if r is None else r)(_nadd(_nmult(m % n, G, p, a), _nmult(k % n, Pk, p, a), p, a))),
+                               (lambda r: _INF if r is None else r)(_nadd(_nmult(m % n, G, p, a), _nmult(k % n, Pk, p, a), p, a))),
                               ("multi_mult_var", lambda: multi_mult_var([m, k, 3], [G, Pk, G], ec),
                                # term by term, each scalar reduced on its own: on the pair whose second `n` is taken on trust n*G is not infinity
-                               (lambda r: (1, 0) if r is None else r)(_nadd(_nadd(_nmult(m % n, G, p, a), _nmult(k % n, Pk, p, a), p, a),
+                               (lambda r: _INF if r is None else r)(_nadd(_nadd(_nmult(m % n, G, p, a), _nmult(k % n, Pk, p, a), p, a),
                                                                             _nmult(3 % n, G, p, a), p, a))),
                               ("dsa.gen_keys", lambda: dsa.gen_keys(m % n or 1, ec)[1], ref(m % n or 1))]
                     if big:
@@ -1222,6 +1225,8 @@ def _o_curve_identity(w):
                         except Exception as e:  # noqa: BLE001
                             return False, f"{name} on the {comp}-variant curve raised {type(e).__name__}: {e} (after `{cond}`)"
                         got = tuple(got) if isinstance(got, (tuple, list)) else got
+                        if isinstance(got, tuple) and len(got) == 2 and got[1] == 0:
+                            got = _INF      # btclib spells infinity as a point with y = 0; the reference as a marker
                         if got != want:
                             which = "second" if c is c2 else "first"
                             return False, (f"{name} with m={m} on the {which} curve of the `{comp}` pair answered {str(got)[:70]} "
